@@ -29,6 +29,15 @@ check("C01", "runtime monitoring: API-boundary wrappers advance a wire-labelled 
       "Trusted: the shadow model and own permanent in /verif/lwverif (written from the documented "
       "component matrices), numpy; tolerance 1e-9.", "DESIGN.md 4 C01")
 
+check("C02", "runtime monitoring: history + executable wire model; depth-0 wrappers on every Circuit mutator advance "
+      "a shadow, compared with the implementation's heralded amplitudes and frame at quiescent points, over "
+      "seeded random circuit trees",
+      "Held on the circuit trees explored (all behavioural buckets of add() reached, incl. existing ancilla inside "
+      "the span x herald in!=out): n_modes, input_modes, herald photons and heralded amplitudes (<=2-3 visible "
+      "photons) agree with the wire model. Exploration only.",
+      "Trusted: wire model + own permanent; amplitudes compared with loss modes in vacuum, visible photon number "
+      "bounded; tolerance 1e-8.", "DESIGN.md 4 C02")
+
 NOT_APPLICABLE = []
 _EXPLICIT_NA = {}
 for line in open("/verif/properties.jsonl"):
